@@ -15,6 +15,7 @@ import (
 	"runtime"
 	"strconv"
 	"strings"
+	"time"
 )
 
 type modelVal struct {
@@ -316,6 +317,10 @@ func SetAllocPolicy(limitBytes int, candidates ...int) {
 
 // SymbolicClock: see gosym (time.Now becomes an arbitrary non-decreasing instant). Natively the real clock runs.
 func SymbolicClock() {}
+
+// ClockTick lets real time pass in a native replay (1.1 s, so that readings with one-second resolution differ); under gosym
+// the symbolic clock may advance by any amount between any two readings anyway.
+func ClockTick() { time.Sleep(1100 * time.Millisecond) }
 
 // LimitIsViolation: see gosym. Natively a hang / stack exhaustion shows as a crashed or timed-out replay.
 func LimitIsViolation(label string) {}
